@@ -159,7 +159,8 @@ def replay_snippet(t, dk, sc, seed, edit, out_mode, harness_dir):
 
 
 def label_logscales(r):
-    """log2(base_value) of the unit of every unit-carrying leaf of a result (None for a non-dyadic scale)"""
+    """log2(base_value) of the unit of every unit-carrying leaf of a result (an int for a dyadic scale, else a float:
+    cube roots)"""
     import unyt
 
     out = []
@@ -168,7 +169,7 @@ def label_logscales(r):
         if isinstance(x, unyt.unyt_array):
             bv = float(x.units.base_value)
             m, e = math.frexp(bv) if bv > 0 else (0.0, 0)
-            out.append(e - 1 if m == 0.5 else None)
+            out.append(e - 1 if m == 0.5 else (math.log2(bv) if bv > 0 else None))
         elif isinstance(x, (tuple, list)) and depth < 6:
             for v in x:
                 walk(v, depth + 1)
@@ -255,3 +256,50 @@ def real_history(t, dk, sc, seed, events):
         else:
             out.append(_call_labels(t, call, HistUnits(regs[e[1]], tags[e[2]])))
     return out
+
+
+# -----------------------------------------------------------------------------------------------
+# the memoised unit rules of unyt/array.py (the ufunc path): the ufunc each serves, the operand groups it is called
+# on here (distinct dimensions: nothing cancels) and the exponents of its label
+
+def _rule_table():
+    from fractions import Fraction as Fr
+
+    return {
+        "_sqrt_unit": (lambda x, y: np.sqrt(x), (0,), (Fr(1, 2),)),
+        "_cbrt_unit": (lambda x, y: np.cbrt(x), (0,), (Fr(1, 3),)),
+        "_square_unit": (lambda x, y: np.square(x), (0,), (Fr(2),)),
+        "_reciprocal_unit": (lambda x, y: np.reciprocal(x), (0,), (Fr(-1),)),
+        "_power_unit": (lambda x, y: np.power(x, 3), (0,), (Fr(3),)),
+        "_multiply_units": (lambda x, y: np.multiply(x, y), (0, 1), (Fr(1), Fr(1))),
+        "_divide_units": (lambda x, y: np.divide(x, y), (0, 1), (Fr(1), Fr(-1))),
+        "_preserve_units": (lambda x, y: np.add(x, x), (0,), (Fr(1),)),
+        "_difference_units": (lambda x, y: np.subtract(x, x), (0,), (Fr(1),)),
+    }
+
+
+def real_rule_history(rule_name, events):
+    """(label scales per call, number of misses of the rule's lru_cache) of a history on the real ufunc"""
+    import unyt
+    import unyt.array as UA
+
+    f, _groups, _expos = _rule_table()[rule_name]
+    rule = getattr(UA, rule_name)
+    regs = (new_registry(), new_registry())
+    tags = (fresh_tag(), fresh_tag())
+    for (r, s), ks in INITIAL.items():
+        add_symbols(regs[r], tags[s], ks)
+    data = np.array([1.0, 2.0, 4.0])
+    rule.cache_clear()
+    before = rule.cache_info().misses
+    out = []
+    for e in events:
+        if e[0] == "modify":
+            edit_symbols(regs[e[1]], tags[e[2]], e[3], "modify")
+        else:
+            U = HistUnits(regs[e[1]], tags[e[2]])
+            res = f(unyt.unyt_array(data.copy(), U.alt(0)), unyt.unyt_array(data.copy(), U.alt(1)))
+            out.append(label_logscales(res))
+    misses = rule.cache_info().misses - before
+    rule.cache_clear()
+    return out, misses
